@@ -23,8 +23,8 @@ are claimed in MANIFEST.json (C15 at level `other`, the rest at level `proof`).
   and the sharp approximation constants 4/3 − 1/(3k) for LPT and for Karmarkar–Karp (`LPT43`, `KK43`), 2/3·(OPT−1) and
   3/4·OPT − 4 for the covering algorithms (`Cover23`, `Cover34`: parametrised staircase weightings found by the provers).
 * Still only certified (verified oracle on every run, no theorem): LPT's exact max-min ratio (3k−1)/(4k−2) in one regime
-  (2k/(3k−1) proved), multifit's 1.22 (4/3 proved), C09's absolute ⌊1.7·OPT⌋ (+1 proved) and 11/9 (3/2 and (4·OPT+1)/3
-  proved); anything about CBC; CPython set order;
+  (2k/(3k−1) proved), multifit's 1.22 (5/4 proved), C09's absolute ⌊1.7·OPT⌋ (+1 proved) and 11/9 (3/2 absolute, 5/4·OPT + 1, and 11/9
+  outside one size range of the last bin's first item proved); anything about CBC; CPython set order;
   interpreter-level state (C15).  Items in progress are listed per property below as `partial`.
 * One more known finding: **KF5** (C11): with `use_heuristic_3=True` and `MinimizeLargestSum`, when heuristic 3 fires on
   the first branch the first solution is not the LPT partition (`[1,1,2]`, 3 bins: sums `[0,2,2]` instead of `[1,1,2]`);
